@@ -65,19 +65,29 @@ def drive_(a, rng):
     ts = t.tree_sequence()
     L = a["L"]
     A = lambda tab: abstr.abstract_of(tab, cmap, tmap, tscale=2)
-    case = dict(a=A(ts.dump_tables()), ops=[], a2=None)
+    case = dict(a=A(ts.dump_tables()), ops=[], a2=None, ragged_ok=1, ragged_why="")
+    rg0, cleared = abstr.ragged_variant(ts.dump_tables(), rng)
+    rts = rg0.tree_sequence()
+
+    def ragged(name, out_tagged, out_ragged):
+        why = abstr.ragged_consistent(out_tagged, out_ragged, cleared)
+        if why and case["ragged_ok"]:
+            case["ragged_ok"] = 0
+            case["ragged_why"] = "%s: %s" % (name, why)
     ivs = random_intervals(rng, L)
     fivs = [[cmap(x), cmap(y)] for x, y in ivs]
     if ivs or True:
         if ivs:
             k = ts.keep_intervals(fivs, simplify=False, record_provenance=False)
             case["ops"].append(dict(op="keep_intervals", base="in", ivs=ivs, b=A(k.dump_tables())))
+            ragged("keep_intervals", k.dump_tables(), rts.keep_intervals(fivs, simplify=False, record_provenance=False).dump_tables())
         else:
             k = None
         if len(ivs) == 0 or sum(y - x for x, y in ivs) < L:
             d = ts.delete_intervals(fivs, simplify=False, record_provenance=False) if ivs else None
             if d is not None:
                 case["ops"].append(dict(op="delete_intervals", base="in", ivs=ivs, b=A(d.dump_tables())))
+                ragged("delete_intervals", d.dump_tables(), rts.delete_intervals(fivs, simplify=False, record_provenance=False).dump_tables())
         # trims on the clipped result (they need >= 1 edge)
         trim_ok = k is not None and k.num_edges > 0
         if trim_ok:
@@ -93,6 +103,9 @@ def drive_(a, rng):
             op = rng.choice(["ltrim", "rtrim", "trim"])
             r = kt.copy()
             getattr(r, op)(record_provenance=False)
+            r2 = rts.keep_intervals(fivs, simplify=False, record_provenance=False).dump_tables()
+            getattr(r2, op)(record_provenance=False)
+            ragged(op, r, r2)
             shift = lo if op in ("ltrim", "trim") else 0
             newL = (hi if op in ("rtrim", "trim") else L) - shift
             # the shifted coordinates are new floats: register them
@@ -103,6 +116,7 @@ def drive_(a, rng):
         ids = rng.sample(range(ts.num_sites), rng.randint(0, ts.num_sites))
         r = ts.delete_sites(gen.arg_form(rng, ids), record_provenance=False)
         case["ops"].append(dict(op="delete_sites", base="in", ids=ids, b=A(r.dump_tables())))
+        ragged("delete_sites", r.dump_tables(), rts.delete_sites(ids, record_provenance=False).dump_tables())
     # cutoff times on the doubled grid: below, at, between and above node times
     t2 = rng.randint(-1, 2 * max(a["time"]) + 1)
     tf = tmap(t2 / 2)
@@ -111,6 +125,9 @@ def drive_(a, rng):
     d = ts.dump_tables()
     d.delete_older(tf)
     case["ops"].append(dict(op="delete_older", base="in", t2=t2, b=A(d)))
+    d2 = rg0.copy()
+    d2.delete_older(tf)
+    ragged("delete_older", d, d2)
     if not with_migs:
         sp = ts.split_edges(tf, flags=nf, population=npop)
         case["ops"].append(dict(op="split_edges", base="in", t2=t2, nf=nf, np=npop, b=A(sp.dump_tables())))
@@ -176,7 +193,7 @@ def extend_case(rng):
     ext = ts.extend_haplotypes()
     s1, s2 = simplified_pair(ts, ext)
     base = A(ts.dump_tables())
-    return dict(a=base, a2=base, ops=[dict(op="extend_haplotypes", base="a2", simplify_same=1 if s1.equals(s2) else 0, b=A(ext.dump_tables()))],
+    return dict(a=base, a2=base, ragged_ok=1, ragged_why="", ops=[dict(op="extend_haplotypes", base="a2", simplify_same=1 if s1.equals(s2) else 0, b=A(ext.dump_tables()))],
                 changed=0 if ext.tables.edges.equals(ts.tables.edges) else 1)
 
 
